@@ -103,12 +103,14 @@ type SetCase struct {
 }
 
 var specC14Sets = report.Spec{Property: "C14", Check: "C14Sets", Exhaustive: true,
-	Rule: "exhaustive: all 14 built-in sets. Each through the REAL BINARY (texel -s <missing file> -t x -tms <id> -z [deepest id]: outcome in {validation error, passed validation (= 'error opening source GeoPackage'), Go panic}) and through the library (IsQuadTree, DeviationStats with panics caught). " +
+	Rule: "exhaustive: all 14 built-in sets. Each through the REAL BINARY (texel -s <missing file> -t x -tms <id> -z [deepest id] and seven more id lists (shallowest, second, middle id alone; lists in ascending and descending order): outcome in {validation error, passed validation (= 'error opening source GeoPackage'), Go panic}) and through the library (IsQuadTree, DeviationStats with panics caught). " +
 		"Oracle: never a panic; binary and library agree; accepted => the independent true-quadtree predicate over the document numbers holds, rejected => it does not; for every accepted set and every tile matrix id with pixel level <= 32 the pixel pitch measured from actual snapping " +
 		"(a triangle with legs of 8 pixels, difference of the returned centres / 8) equals cellSize/16 within 1e-6 relative plus the reported deviation. Non-trivial: all (each set exercises a different branch of the validation).",
 	Assumptions: []string{"the binary is built by the driver from /repo's working tree with -tags verif"}}
 
-func cliOutcome(set string, deepest int) (string, string) {
+func cliOutcome(set string, deepest int) (string, string) { return cliOutcomeIDs(set, []int{deepest}) }
+
+func cliOutcomeIDs(set string, ids []int) (string, string) {
 	bin := os.Getenv("VERIF_TEXEL_BIN")
 	if bin == "" {
 		return "no-binary", ""
@@ -117,7 +119,7 @@ func cliOutcome(set string, deepest int) (string, string) {
 	if scratch == "" {
 		scratch = os.TempDir()
 	}
-	cmd := exec.Command(bin, "-s", scratch+"/does-not-exist.gpkg", "-t", scratch+"/c14-target.gpkg", "-tms", set, "-z", fmt.Sprintf("[%d]", deepest))
+	cmd := exec.Command(bin, "-s", scratch+"/does-not-exist.gpkg", "-t", scratch+"/c14-target.gpkg", "-tms", set, "-z", strings.ReplaceAll(fmt.Sprint(ids), " ", ","))
 	var buf bytes.Buffer
 	cmd.Stdout, cmd.Stderr = &buf, &buf
 	_ = cmd.Run()
@@ -166,6 +168,28 @@ func oracleC14Sets(c SetCase) (o report.Outcome) {
 	if cli != lib {
 		o.Failf([]string{"cli-vs-library"}, "%s: the binary says %s, the library says %s (%v); binary output: %.400s", c.Set, cli, lib, libErr, out)
 		return o
+	}
+	// the verdict is about the set, not about the tile matrices that happen to be requested: every id alone (the shallowest and the
+	// deepest ones, a middle one) and lists in either order give the same verdict
+	var all []int
+	for id, tm := range tms.TileMatrices {
+		if len(tm.VariableMatrixWidths) == 0 || lib == "rejected" {
+			all = append(all, id)
+		}
+	}
+	sort.Ints(all)
+	if n := len(all); n > 0 {
+		lists := [][]int{{all[0]}, {all[n/2]}, {all[n-1], all[0]}, {all[0], all[n-1]}, {all[n/2], all[n-1], all[0]}}
+		if n > 1 {
+			lists = append(lists, []int{all[1]}, []int{all[1], all[0]})
+		}
+		for _, ids := range lists {
+			v, out := cliOutcomeIDs(c.Set, ids)
+			if v != cli {
+				o.Failf([]string{"cli-ids"}, "%s: texel -z %v says %s, texel -z [%d] says %s: the verdict depends on the requested tile matrices; output: %.400s", c.Set, ids, v, deepest, cli, out)
+				return o
+			}
+		}
 	}
 	isQT, why := trueQuadtree(tms)
 	if lib == "accepted" && !isQT {
